@@ -29,56 +29,78 @@ extern double g_dbl;              /* value returned by the last strtod */
 extern float g_flt;               /* value returned by the last strtof */
 extern unsigned g_load_calls;
 
+/* ---- the output string -------------------------------------------------------------------------------------------------
+ * Two models of the std::string the parser / formatter appends to (selected per harness; the extracted text uses OUT_STR):
+ *   default          vstr of stubs/vstr.h: the whole content {data,size,cap}
+ *   C09_TAIL_MODEL   append-only view: only the total size and the bytes appended since the window was last reset are kept
+ *                    (std::string::append / push_back / operator+= never modify earlier bytes: ISO C++ [string.append]); the
+ *                    earlier content, which neither function ever reads, is not represented (byte 0 is kept in `first`).
+ *                    One loop iteration of the parser / formatter appends at most C09_WIN bytes. */
+#define C09_WIN 8
+#ifdef C09_TAIL_MODEL
+typedef struct { size_t size; size_t cap; size_t nw; char w[C09_WIN]; char first; } c09_tail_str;   /* first: byte 0 of the string */
+typedef c09_tail_str OUT_STR;
+static inline size_t out_size(const OUT_STR* s) { return s->size; }
+static inline void out_clear(OUT_STR* s) { s->size = 0; s->nw = 0; }
+static inline void out_push_back(OUT_STR* s, char c)
+{
+  __CPROVER_assert(s->size < s->cap, "string capacity (allocation modelled as capacity)");
+  __CPROVER_assert(s->nw < C09_WIN, "at most C09_WIN bytes are appended between two window resets (model)");
+  if (s->size == 0) {
+    s->first = c;
+  }
+  s->w[s->nw] = c;
+  s->nw++;
+  s->size++;
+}
+/* a new iteration of the parser's loop starts a new window (used by the loop skeleton in front of the step call) */
+#define C09_WINDOW_RESET(s) do { if ((s) != 0) (s)->nw = 0; } while (0)
+#else
+#define C09_WINDOW_RESET(s) do { } while (0)
+typedef vstr OUT_STR;
+#define out_size vstr_size
+#define out_clear vstr_clear
+#define out_push_back vstr_push_back
+#endif
+
 size_t nondet_size_t(void);
 unsigned long long nondet_ull(void);
 double nondet_double(void);
 float nondet_float(void);
 
-/* Contracts of the two multi-byte appends (used with --replace-call-with-contract where the string has symbolic capacity; the
- * bodies below are used where buffers are small).  Ghost index g_vk as in stubs/vstr.h.  n <= 8 at every call site. */
-static inline void C09_append_bytes(vstr* s, const char* p, size_t n)
-__CPROVER_requires(n <= 8 && (n == 0 || __CPROVER_r_ok(p, n)))
-__CPROVER_requires(s->size <= s->cap && n <= s->cap - s->size)
-__CPROVER_ensures(s->size == __CPROVER_old(s->size) + n)
-__CPROVER_ensures((g_vk >= __CPROVER_old(s->size) && g_vk < s->size) ==> s->data[g_vk] == p[g_vk - __CPROVER_old(s->size)])
-__CPROVER_assigns(s->size, __CPROVER_object_from(s->data + s->size));
-
-static inline void C09_append_fill(vstr* s, size_t n, char c)
-__CPROVER_requires(n <= 8 && s->size <= s->cap && n <= s->cap - s->size)
-__CPROVER_ensures(s->size == __CPROVER_old(s->size) + n)
-__CPROVER_ensures((g_vk >= __CPROVER_old(s->size) && g_vk < s->size) ==> s->data[g_vk] == c)
-__CPROVER_assigns(s->size, __CPROVER_object_from(s->data + s->size));
-
-static inline void C09_append_bytes(vstr* s, const char* p, size_t n)
+static inline void C09_append_bytes(OUT_STR* s, const char* p, size_t n)
 {
   for (size_t i = 0; i < n; i++) {
-    vstr_push_back(s, p[i]);
+    out_push_back(s, p[i]);
   }
 }
 
-static inline void C09_append_fill(vstr* s, size_t n, char c)
+static inline void C09_append_fill(OUT_STR* s, size_t n, char c)
 {
   for (size_t i = 0; i < n; i++) {
-    vstr_push_back(s, c);
+    out_push_back(s, c);
   }
 }
 
-static inline void C09_append_lit(vstr* s, const char* lit, size_t n)
+static inline void C09_append_lit(OUT_STR* s, const char* lit, size_t n)
 {
-  for (size_t i = 0; i < n; i++) {
-    vstr_push_back(s, lit[i]);
-  }
+  /* literals of at most 4 characters; no loop (a callee loop without contract inside a loop under contract trips dfcc) */
+  __CPROVER_assert(n <= 4, "string literal appended by the formatter has at most 4 characters (model)");
+  if (n > 0) out_push_back(s, lit[0]);
+  if (n > 1) out_push_back(s, lit[1]);
+  if (n > 2) out_push_back(s, lit[2]);
+  if (n > 3) out_push_back(s, lit[3]);
 }
 
 #define C09_HEXDIGIT(v, upper) ((char)((v) < 10 ? '0' + (v) : ((upper) ? 'A' : 'a') + ((v) - 10)))
-static inline void C09_append_printf_hex(vstr* s, const char* fmt, unsigned v)
+static inline void C09_append_printf_hex(OUT_STR* s, const char* fmt, unsigned v)
 {
   /* only "%02X" / "%02x" are modelled; anything else is outside the model */
   __CPROVER_assert(fmt[0] == '%' && fmt[1] == '0' && fmt[2] == '2' && (fmt[3] == 'X' || fmt[3] == 'x') && fmt[4] == 0,
                    "string_printf format is %02X or %02x (printf model)");
   __CPROVER_assert(v < 256, "two-digit hex format is given a byte");
-  vstr_push_back(s, C09_HEXDIGIT((v >> 4) & 15, fmt[3] == 'X'));
-  vstr_push_back(s, C09_HEXDIGIT(v & 15, fmt[3] == 'X'));
+  out_push_back(s, C09_HEXDIGIT((v >> 4) & 15, fmt[3] == 'X'));
+  out_push_back(s, C09_HEXDIGIT(v & 15, fmt[3] == 'X'));
 }
 
 #define C09_STRTO_COMMON(kind)                                                                                                   \
@@ -112,7 +134,7 @@ static inline float C09_strtof(const char* nptr, char** endptr)
 }
 
 /* load_file: with ALLOW_FILES off it must be unreachable (that is the obligation); the model raises cannot_open_file */
-static inline void C09_load_file(vstr* data, const vstr* filename)
+static inline void C09_load_file(OUT_STR* data, const vstr* filename)
 {
   (void)data; (void)filename;
   g_load_calls++;
